@@ -536,3 +536,51 @@ def rule_PRT1(ctx, files=None):
                              % (coarse[0].loc(coarse[1]), merged, fine[0].loc(fine[1]), fine[0].q))
     res.analysed.update({'switch_pairs': npair})
     return res, npair
+
+
+def rule_TW1(ctx, files=None):
+    from ..flow import Canon
+    res = RuleResult('TW1', 'twin guards agree: a function that compares |v| with a bound does not elsewhere compare the bare v '
+                            'with the same bound in the same direction (the far-side test written once with and once without '
+                            'fabs)')
+    ncmp = 0
+    seen = set()
+    flipop = {'<': '>', '<=': '>=', '>': '<', '>=': '<='}
+    for f in sorted(ctx.lib_fns(), key=lambda x: (x.file, x.line)):
+        if not _in(f, files) or f.d.get('body', -1) < 0:
+            continue
+        can = Canon(f)
+        forms = {}
+        for i, n in f.all_nodes():
+            if n['k'] != 'BinaryOperator' or n.get('op') not in flipop:
+                continue
+            for side, other, flip in ((0, 1, False), (1, 0, True)):
+                a = f.nodes[f.strip_casts(n['ch'][side])]
+                op = flipop[n['op']] if flip else n['op']
+                fab = False
+                if a.get('callee') and a['callee'].get('name') in ('fabs', 'abs') and a.get('args'):
+                    a = f.nodes[f.strip_casts(a['args'][0])]
+                    fab = True
+                if a['k'] != 'DeclRefExpr' or a.get('rk') not in ('param', 'local', 'var'):
+                    continue
+                c = can.of(n['ch'][other])
+                if c is None:
+                    continue
+                c = c[0]
+                forms.setdefault((a['d'], a.get('name'), op[0], c), {}).setdefault(fab, []).append(i)
+        for (d, name, op, c), v in sorted(forms.items(), key=lambda kv: str(kv[0])):
+            if True not in v:
+                continue
+            key = (f.file, f.nodes[v[True][0]].get('l'), name)
+            if key in seen:
+                continue
+            seen.add(key)
+            ncmp += 1
+            ok = False not in v
+            res.ob(ok, {'fn': f.q, 'variable': name, 'bound': c, 'with_fabs': [f.loc(x) for x in v[True]]} if (not ok or ncmp % 8 == 1) else None)
+            if not ok:
+                res.fail(f.q, name, f.loc(v[False][0]),
+                         '%s is compared with %s through fabs() at %s but bare at %s' %
+                         (name, c, f.loc(v[True][0]), f.loc(v[False][0])))
+    res.analysed.update({'fabs_comparisons': ncmp})
+    return res, ncmp
